@@ -160,7 +160,9 @@ func ruleNoWritesFrom(c *Ctx, cat *SQLCat, r *Report, rule string, roots []*ssa.
 		reach := c.reach(root)
 		var probs []string
 		for _, st := range cat.stmtsIn(reach) {
-			if st.isWrite() || st.Unres || st.Verb == "BEGIN" || st.Verb == "COMMIT" {
+			// anything but a SELECT: writes, transaction control, and statements that change the state of the pooled
+			// connection they happen to run on (PRAGMA, ATTACH, VACUUM ...), which the sync goroutine's next BeginTx may get
+			if st.isWrite() || st.Unres || st.Verb != "SELECT" {
 				probs = append(probs, fmt.Sprintf("%s %s %s in %s @ %s via %s", st.Verb, st.Table, st.Recv, fname(st.Fn), c.ipos(st.Site), joinNames(c.pathTo(root, st.Fn))))
 			}
 		}
